@@ -45,6 +45,8 @@
 import Y0.Lemmas.CtfTrSoundFinal
 import Y0.Lemmas.CtfTrCond
 import Y0.Lemmas.CtfTrExampleFamily
+import Y0.Lemmas.CtfTrCondLink3
+import Y0.Lemmas.CtfTrCondJ
 import Y0.Props.C09
 
 namespace Y0
@@ -306,6 +308,86 @@ theorem ctfTR_sound_of_parts (target : MG Name) (ds : List Domain) (o c : Event)
     exact (List.mem_filter.1 hn).1
   rw [hsum (diff' dNames (eventNames (c ++ o))) (hsub _), hsum (diff' dNames (eventNames c)) (hsub _)]
   exact line4_normalise _ _ cOut Pjoint Pcond hc hnum hden
+
+/-- **C09, value clause, Algorithm 3 (ctfTR).**  Whenever `ctfTR` returns an expression `x` with an event, for a
+validated conditional query built by the public wrapper on a target graph built by `from_edges` with domains as declared,
+inside the decidable class `ctfTRSoundClass` (Y0/Model/CtfTr.lean: one world across the ancestral components, outcomes
+found under their own name and over distinct vertices, no outcome that is also a condition, no self-intervened variable,
+no literal subscript naming a summed vertex, and `D_*` in Algorithm 2's class `ctfSoundClass`) — then in EVERY family `F`
+of functional SCMs compatible with the target graph and the declared domains, for every reading `ν` of the value symbols
+and every valuation `σ` that carries the values and literal subscripts of the query (`EventReading ν σ (o ++ c)`: the
+returned event repeats the outcomes' and conditions' values on base variables; a subscript is read from the query), if
+the conditions have positive probability in the target domain, the returned fraction evaluated on the declared domain
+distributions is the target conditional probability `P*(outcomes ∧ conditions) / P*(conditions)`.
+
+Both identities of `ctfTR_sound_of_parts` are DISCHARGED (`ctfTR_link`, Y0/Lemmas/CtfTrCondLink3.lean): composition axiom
+for the cut edges of Def. 4.2, consistency of the members of the ancestral sets, marginalisation over the valueless
+ancestors and over the outcomes, independence of the two groups of ancestral components; `J = Q[V(D_*)]`
+(`dstar_prob_eq_cfactor`). -/
+theorem ctfTR_sound_partial (target : MG Name) (ds : List Domain) (o c : Event) (x : Expr) (rev : Event)
+    (h : ctfTR target ds o c = .ok (some (x, some rev)))
+    (hwf : target.WF) (hdecl : DomainsDeclared ds) (hplain : EventVarsPlain (o ++ c))
+    (hclass : ctfTRSoundClass target ds o c = true)
+    (F : FscmFamily) (graphs : Option Name → MG Name) (hF : F.CompatibleWith target graphs (declsOf ds))
+    (ν : BaseValues) (σ σ' : Val) (hσr : ∀ x, σ x < F.card x) (hσ : EventReading ν σ (o ++ c))
+    (hpos : probEventOpt F.target ν c ≠ 0) :
+    den (F.env graphs) σ' x σ = probEventOpt F.target ν (o ++ c) / probEventOpt F.target ν c := by
+  obtain ⟨dstar, dNames, q, simplified, h2, hu, _, _⟩ := ctfTR_answer_shape target ds o c x rev h
+  have hv : validateC target ds o c = .ok () := by
+    unfold ctfTR at h
+    cases hvc : validateC target ds o c with
+    | error e => rw [hvc] at h; cases h
+    | ok u => rfl
+  obtain ⟨hvalued, _, _, hnodes, _, _, _⟩ := validateC_facts target ds o c hv
+  -- the class
+  unfold ctfTRSoundClass at hclass
+  rw [Bool.and_eq_true] at hclass
+  obtain ⟨hlinkcls, hcls2⟩ := hclass
+  rw [h2] at hcls2
+  simp only [hu] at hcls2
+  have hcls : ctfSoundClass target (fillEvent simplified) = .ok true := by
+    cases hc : ctfSoundClass target (fillEvent simplified) with
+    | error e => rw [hc] at hcls2; cases hcls2
+    | ok b => rw [hc] at hcls2; simp only at hcls2; rw [hcls2]
+  obtain ⟨_, _, hDval, _, _⟩ := dstar_plain target ds o c hv hwf hplain dstar dNames h2
+  have hsimp := ctfTRu_event_is_simplified target ds dstar simplified q hu
+  have hvalev : ∀ p ∈ simplified, ∀ i, p.2 = some i → i.name = p.1.name := by
+    intro p hp i hi
+    obtain ⟨q0, hq0, hname, hval⟩ := simplify_output_values target dstar simplified hsimp p hp
+    rw [← hname]
+    exact hDval q0 hq0 i (by rw [hval]; exact hi)
+  -- the two identities
+  have hT := hF.target
+  obtain ⟨cOut, hnum, hden⟩ := ctfTR_link target hwf o c
+    (fun p hp => hnodes p (by rcases List.mem_append.1 hp with h' | h' <;> simp [h'])) hvalued hlinkcls dstar dNames h2
+    F.target hT.compat hT.wf.noise_sum F.card hT.wf.f_range ν σ hσ
+  have hc0 : cOut ≠ 0 := by
+    intro h0
+    rw [h0, mul_zero] at hden
+    exact hpos hden
+  have hJ : (fun τ => probEventOpt F.target (nuOf τ) (fillEvent simplified)) = localProb F.target dNames := by
+    funext τ
+    rw [dstar_prob_eq_cfactor target ds o c hv hwf hplain dstar dNames h2 q simplified hu F.target hT.compat τ]
+    obtain ⟨_, _, _, _, hDnodes⟩ := dstar_plain target ds o c hv hwf hplain dstar dNames h2
+    exact cfactor_eq_local hT.compat dNames (fun n hn => (hT.compat.perm.mem_iff).2 (hDnodes n hn)) τ
+  refine ctfTR_sound_of_parts target ds o c x rev h hwf hdecl hplain ?_ F graphs hF σ σ' hσr cOut _ _ hc0 ?_
+  · intro dstar' dNames' q' simplified' h2' hu'
+    rw [h2] at h2'
+    simp only [Except.ok.injEq, Prod.mk.injEq] at h2'
+    obtain ⟨rfl, rfl⟩ := h2'
+    rw [hu] at hu'
+    simp only [Except.ok.injEq, Option.some.injEq, Prod.mk.injEq] at hu'
+    obtain ⟨rfl, rfl⟩ := hu'
+    exact ⟨hcls, hvalev⟩
+  · intro dstar' dNames' q' simplified' h2' hu'
+    rw [h2] at h2'
+    simp only [Except.ok.injEq, Prod.mk.injEq] at h2'
+    obtain ⟨rfl, rfl⟩ := h2'
+    rw [hu] at hu'
+    simp only [Except.ok.injEq, Option.some.injEq, Prod.mk.injEq] at hu'
+    obtain ⟨rfl, rfl⟩ := hu'
+    rw [hJ]
+    exact ⟨hnum.symm, hden.symm⟩
 
 -- OPEN: ctfTRu_sound (ALL validated inputs)
 --   FALSE of the current code outside `ctfSoundClass` (known findings value:two_values / multi_world / literal_bound /
